@@ -545,13 +545,29 @@ func genObject(rng *hx.Rng, name string, pool *structPool, marker string, o genO
 			ret = genIdlType(rng, 1+rng.Intn(3), pool, false).print()
 		}
 		m := oMethod{Uid: uid(), Name: actName(i), Params: tupleOf(ps...).print(), Ret: ret}
-		switch rng.Intn(3) {
-		case 0:
-			m.PNames = nil
-		default:
+		// MetaMethod.Parameters (the descriptions of the parameters) is independent of the parameter
+		// tuple: absent (nil), empty, shorter than the tuple, complete, or longer than it
+		nd := len(ps)
+		switch rng.Intn(9) {
+		case 0, 1:
+			nd = -1
+		case 2:
+			nd = 0
+		case 3:
+			if len(ps) >= 2 {
+				nd = 1 + rng.Intn(len(ps)-1)
+			}
+		case 4:
+			nd = len(ps) + 1 + rng.Intn(2)
+		}
+		if nd >= 0 {
 			m.PNames = []string{}
 			seen := map[string]bool{}
-			for range ps {
+			for len(m.PNames) < nd {
+				if rng.Chance(0.06) { // a description without a name: CleanVarName writes P<i>
+					m.PNames = append(m.PNames, "")
+					continue
+				}
 				n := draw(roleParam)
 				for seen[n] {
 					n = draw(roleParam)
@@ -681,12 +697,49 @@ func sameActions(a, b oObject) string {
 	return ""
 }
 
+// rtFail: the round-trip comparison of the property for one package (objs as given to GenerateIDL,
+// o what ParseIDL made of the generated text); "" = every interface came back with its actions
+func rtFail(objs []oObject, o parseObs) string {
+	fail := ""
+	switch {
+	case o.Res == 2:
+		fail = "ParseIDL kills the process (stack overflow)"
+	case o.Res == 3:
+		fail = "ParseIDL panics: " + o.Error
+	case o.Res == 4:
+		fail = "ParseIDL does not return"
+	case o.Res == 0:
+		fail = "ParseIDL rejects the generated text: " + o.Error
+	default:
+		if len(o.Objs) != len(objs) {
+			return fmt.Sprintf("%d interfaces came back as %d", len(objs), len(o.Objs))
+		}
+		for _, want := range objs {
+			found := false
+			for _, got := range o.Objs {
+				if got.Name == want.Name {
+					found = true
+					if d := sameActions(want, got); d != "" {
+						fail = "interface " + want.Name + ": " + d
+					}
+				}
+			}
+			if !found {
+				fail = "interface " + want.Name + " is missing"
+			}
+		}
+	}
+	return fail
+}
+
 type rtCase struct {
 	pkg   string
 	objs  []oObject
 	known string // non-empty: built to hit this defect switch
 	desc  string
 	nontr bool
+	again bool // a package generated a second time in the harness process
+	first int  // ... and the index of its first time
 }
 
 var idlVocab = []string{"interface", "struct", "enum", "end", "fn", "sig", "prop", "package", "(", ")", ":", ",", "->", "//", "//uid:", "uid:",
@@ -699,7 +752,9 @@ func runC18(res *hx.Result, rng *hx.Rng, tier string, outdir string) {
 		"Go keywords and predeclared names, variations in case / one character more or less / underscores / digits, and every vocabulary word once in every role; " +
 		"signatures over scalars, lists, maps, tuples and a pool of named structs shared between actions and nested in containers) through " +
 		"GenerateIDL and ParseIDL; parser: the generated texts, mutations of them (character and token level), token soup over the IDL vocabulary, " +
-		"hand-written corner texts; non-trivial = a struct is used by >= 2 actions or nested in a container, or the text is a mutation; " +
+		"hand-written corner texts; parameter descriptions absent / empty / partial / complete / longer than the parameter tuple; sequences of conversions in one fresh process " +
+		"(a package with a struct name clash, another recorded weak input or an invalid signature first, then ordinary packages made of the same signature strings; the same package " +
+		"repeated; packages sharing structs; objects over a struct pool and over its twin with the same names) where every ordinary step must round-trip; non-trivial = a struct is used by >= 2 actions or nested in a container, or the text is a mutation; " +
 		"distinct by sha256 of the canonical case"
 	nRT, nText := 260, 900
 	if tier == "thorough" {
@@ -831,7 +886,33 @@ func runC18(res *hx.Result, rng *hx.Rng, tier string, outdir string) {
 			desc: "generated with uid 0 / non-tuple signatures allowed", nontr: true})
 	}
 
-	// ---- switch probes: the witnesses of C18_refuted_* ----
+	// ---- parameter descriptions: every tuple width 0..4 with no description (nil) and 0..width+2 descriptions ----
+	// (MetaMethod.Parameters is documentation: whatever its length, every parameter of the tuple is written)
+	ptys := []string{"f", "s", "(ii)<Pt,x,y>", "[b]", "{sI}"}
+	for k := 0; k <= 4; k++ {
+		for d := -1; d <= k+2; d++ {
+			var names []string
+			if d >= 0 {
+				names = []string{}
+				for j := 0; j < d; j++ {
+					names = append(names, []string{"x", "y", "theta", "speed", "mode", "extra", "more"}[j])
+				}
+			}
+			cases = append(cases, rtCase{pkg: "p", desc: fmt.Sprintf("%d parameter descriptions for %d parameters", d, k), nontr: true,
+				objs: []oObject{{Name: "Itf", Methods: []oMethod{{Uid: 1, Name: "f", Params: "(" + strings.Join(ptys[:k], "") + ")", Ret: "v", PNames: names}}}}})
+		}
+	}
+	// ---- the first safe packages once more, after everything above went through GenerateIDL in this process ----
+	nAgain := 0
+	for i := 0; i < nRT && nAgain < 24; i++ {
+		if cases[i].nontr {
+			c := cases[i]
+			c.desc = "again after " + strconv.Itoa(len(cases)) + " other packages: " + c.desc
+			c.again, c.first = true, i
+			cases = append(cases, c)
+			nAgain++
+		}
+	}
 
 	// ---- run GenerateIDL on every case ----
 	var texts []string
@@ -983,43 +1064,17 @@ func runC18(res *hx.Result, rng *hx.Rng, tier string, outdir string) {
 	sw := map[string]bool{}
 	detail := map[string]string{}
 	// ---- round-trip oracle ----
+	type pending struct{ kind, det string }
+	var failing []pending // reported smallest first: the first failing input is the one to read
 	for i, c := range cases {
 		o := obs[i]
-		fail := ""
-		switch {
-		case !outs[i].ok:
+		if !outs[i].ok {
 			continue
-		case o.Res == 2:
-			fail = "ParseIDL kills the process (stack overflow)"
-		case o.Res == 3:
-			fail = "ParseIDL panics: " + o.Error
-		case o.Res == 4:
-			fail = "ParseIDL does not return"
-		case o.Res == 0:
-			fail = "ParseIDL rejects the generated text: " + o.Error
-		default:
-			if len(o.Objs) != len(c.objs) {
-				fail = fmt.Sprintf("%d interfaces came back as %d", len(c.objs), len(o.Objs))
-				break
-			}
-			for _, want := range c.objs {
-				found := false
-				for _, got := range o.Objs {
-					if got.Name == want.Name {
-						found = true
-						if d := sameActions(want, got); d != "" {
-							fail = "interface " + want.Name + ": " + d
-						}
-					}
-				}
-				if !found {
-					fail = "interface " + want.Name + " is missing"
-				}
-			}
 		}
+		fail := rtFail(c.objs, o)
 		res.Dist("roundtrip:" + map[bool]string{true: "safe", false: "unsafe:" + c.known}[c.known == ""])
 		canon := objsTerm(c.objs)
-		res.Count("RT|"+c.pkg+"|"+canon, c.nontr)
+		res.Count(map[bool]string{false: "RT|", true: "RT-again|"}[c.again]+c.pkg+"|"+canon, c.nontr)
 		if i < 3 {
 			res.Sample(fmt.Sprintf("%s -> %q -> ok=%v", canon, outs[i].text, fail == ""))
 		}
@@ -1027,6 +1082,11 @@ func runC18(res *hx.Result, rng *hx.Rng, tier string, outdir string) {
 			continue
 		}
 		det := fmt.Sprintf("meta-objects %s; generated IDL %q; %s", canon, outs[i].text, fail)
+		if c.again && c.known == "" && rtFail(cases[c.first].objs, obs[c.first]) == "" {
+			failing = append(failing, pending{"roundtrip-depends-on-history", fmt.Sprintf("%s. The same package round-tripped when this process generated it first (generated IDL %q); "+
+				"this is its second GenerateIDL, after %d other packages went through GenerateIDL in the process", det, outs[c.first].text, i-c.first-1)})
+			continue
+		}
 		if c.known != "" {
 			if !sw[c.known] {
 				sw[c.known] = true
@@ -1034,8 +1094,12 @@ func runC18(res *hx.Result, rng *hx.Rng, tier string, outdir string) {
 			}
 			res.FailKnown("roundtrip", det, c.known)
 		} else {
-			res.Fail("roundtrip", det)
+			failing = append(failing, pending{"roundtrip", det})
 		}
+	}
+	sort.SliceStable(failing, func(i, j int) bool { return len(failing[i].det) < len(failing[j].det) })
+	for _, f := range failing {
+		res.Fail(f.kind, f.det)
 	}
 	for _, k := range []string{"keyword_prefix_struct_name", "basic_type_struct_name", "container_prefix_struct_name", "colliding_struct_names", "non_tuple_signal_property",
 		"uid_zero", "empty_tuple_or_void_in_container"} {
@@ -1078,6 +1142,8 @@ func runC18(res *hx.Result, rng *hx.Rng, tier string, outdir string) {
 	if !crashSeen {
 		res.Switch("self_referential_struct_crash", probe.Res == 2, fmt.Sprintf("ParseIDL on %q ends the process: %s", selfRefWitness, probe.Error))
 	}
+	// ---- sequences of conversions, each in one fresh process ----
+	c18Sequences(res, rng, tier, outdir, cf, cases[:nRT])
 	cf.Flush()
 }
 
